@@ -45,6 +45,15 @@ def check_c11(case, ctx):
     best = max(range(n), key=lambda i: probs[i])
     if ranks[best] != 1:
         raise Violation("argmax-not-first", f"{kind}: most likely team {best} has rank {ranks[best]}: {out}")
+    m_same = mk_model(cfg)
+    objs_same = mk_teams(m_same, teams)
+    for t in objs_same:
+        for pl in t:
+            pl.id = "shared-id"
+    out_same = guarded(m_same.predict_rank, objs_same, what="predict_rank (shared ids)")
+    ctx.called()
+    if out_same != out:
+        raise Violation("depends-on-ids", f"{kind}: predict_rank = {out!r}, but {out_same!r} when all ratings carry the same id")
     # input order: the probability at position i belongs to team i -> permuting teams permutes the result
     perm = case["perm"]
     m2 = mk_model(cfg)
